@@ -416,7 +416,23 @@ def lookup_rules(run):
                 run.check(ok, R, R + "|lookup|scope", f.loc(tt["span"]), "a reference with k dots is looked up below the first k enclosing labels of the context of use; too many dots find nothing",
                           "try_get_by_name looks `%s` up below `%s`, expected `%s` (and nothing when the level exceeds the nesting)" % (hier, got, want))
         if not ok and len(gts) != 1:
-            run.violation(R, R + "|lookup|scope", f.loc(), "mechanism not found: level test in try_get_by_name")
+            # the same decision taken by a checked slice: `ctx.hierarchy.get(0..level)` is None exactly when level exceeds the nesting
+            SL = r"slice::get\((P\d+\.\w+), Range\{start: 0_usize, end: (P\d+)\}\)"
+            tests = option_tests(f, lambda d: bool(re.fullmatch(SL, d)))
+            tr = _calls(f, "SymbolManager::traverse")
+            if len(tests) == 1 and len(tr) == 1:
+                sb, some, none = tests[0]
+                tb, tt = tr[0]
+                got = deep(f, tt["args"][1], 8)
+                hier = deep(f, tt["args"][2])
+                m = re.fullmatch(r"SymbolManager::get_parent\(P1, None\{\}, (" + SL + r")@(Some|Continue)\.0\)", got)
+                nreg = T.dominated_region(f, none, sb)
+                ok2 = m is not None and re.match(r"^P\d+$", hier) is not None and f.edge_dominates(sb, some, tb) and tt["dest"]["l"] == 0 and not tt["dest"]["p"] \
+                    and not any((t_.get("callee") or "").find("SymbolManager") >= 0 for _, t_ in T.region_calls(f, nreg))
+                run.check(ok2, R, R + "|lookup|scope", f.loc(tt["span"]), "a reference with k dots is looked up below the first k enclosing labels of the context of use (checked slice); too many dots find nothing",
+                          "try_get_by_name looks `%s` up below `%s`, expected the parent named by the checked slice of the first `level` enclosing labels" % (hier, got))
+            else:
+                run.violation(R, R + "|lookup|scope", f.loc(), "mechanism not found: level test in try_get_by_name")
     # traverse / get_parent: descend one name at a time from index 0, recursing on the rest
     for name, last_is_result in (("SymbolManager::<T>::traverse", True), ("SymbolManager::<T>::get_parent", False)):
         g = run.anchor(R, name)
